@@ -134,9 +134,9 @@ Definition raised_by_user (p : prog) : list exc :=
   caught (setup_raise p)
   ++ (if setup_returns p then caught (body_raise p) ++ caught (teardown_raise p) else [])
   ++ flat_map (fun e => caught (entry_raise e)) (cleanup_entries p).
-(* ... followed by the forced failure RunTest raises last *)
+(* ... followed by the forced failure RunTest raises last, whether or not setUp returned *)
 Definition forced_failure (p : prog) : list exc :=
-  if negb (skipped p) && setup_returns p && forced p then [Exc CFail None] else [].
+  if negb (skipped p) && forced p then [Exc CFail None] else [].
 Definition raised (p : prog) : list exc := raised_by_user p ++ forced_failure p.
 
 (* ---------- the execution log, values of the patched attributes left open ---------- *)
